@@ -17,7 +17,55 @@ SIM_ASSUME = [
     "memory-level data races between park points are not explored",
 ]
 
+L_REAL = ("real: command functions (runInit/runBackup/runForget/runPrune/runCheck/runUnlock ...), archiver, repository, packer, index, "
+          "prune/repack, checker, lock code, sema/retry/logger wrappers, crypto, zstd; simulated: object store, source file system, "
+          "clock, randomness, goroutine choice, PID/host")
+
 PROPS = {
+    "C09": dict(
+        pkg="cmd/restic", test="TestVerifC09", level="fault_enumeration", quick_s=60, thorough_s=900,
+        text="histories of complete and crashed backups over changing source trees (leaving unused, duplicate and unreferenced packs), then "
+             "forget and prune (separately or combined) with generated options; the prune is crashed after its k-th applied backend mutation "
+             "(sampled k, and complete sweeps over every k), cancelled, or given transient errors; after every stop a fresh process checks that "
+             "every remaining snapshot restores equal to its source model and that real `check --read-data` reports no error, then a second "
+             "prune runs to completion and the oracle is repeated",
+        note="prune --unsafe-recover-no-free-space is excluded (documented as unsafe); saves/removes are atomic at a crash; leftover locks of "
+             "crashed processes are removed with `restic unlock`; sampling of schedules and histories",
+        design_ref="3 / C09",
+        rule="one run = configuration x 2-4 backups (a quarter crashed) x forget subset x prune options (max-unused 0/5%/50%/20k/unlimited, "
+             "max-repack-size, repack-small, cacheable-only, uncompressed) x fault; sweep runs repeat the prune for every crash point; "
+             "distinct = distinct event-log hash among runs with a real scheduling choice or fired fault",
+        real_vs_stub=L_REAL,
+        assumptions=SIM_ASSUME + ["backend Save/Remove are atomic at a crash"],
+    ),
+    "C15": dict(
+        pkg="cmd/restic", test="TestVerifC15", level="exploration", quick_s=60, thorough_s=900,
+        text="generated histories of 2-8 operations over backup, forget, prune, forget --prune, tag, rewrite --exclude, key add/passwd and repair "
+             "index, each optionally crashed at a tape-chosen backend mutation, cancelled or given transient errors; the real `check --read-data` "
+             "must report no error after every interrupted operation and at the end, and every snapshot the model expects restores equal",
+        note="histories are sampled; crashed processes' locks are removed with `restic unlock`; copy/migrate/repair packs are covered by their own checks",
+        design_ref="3 / C15",
+        rule="one run = configuration x history of 2-8 operations x fault per operation x seeded schedule; distinct = distinct event-log hash "
+             "among runs with a real scheduling choice or fired fault",
+        real_vs_stub=L_REAL,
+        assumptions=SIM_ASSUME + ["backend Save/Remove are atomic at a crash"],
+    ),
+    "C11": dict(
+        pkg="cmd/restic", test="TestVerifC11", level="fault_enumeration", quick_s=60, thorough_s=900,
+        text="histories of 0-2 complete backups followed by a target backup that is crashed after its k-th applied backend mutation (sampled k, "
+             "and complete sweeps over every k of a run), cancelled at its k-th mutation, or given transient/permanent backend errors; after every "
+             "stop a fresh process judges the surviving store: every snapshot file present is complete per an independent store decoder, earlier "
+             "snapshots restore equal to their source model through the real read path, real `check --read-data` reports no error, and a "
+             "fault-free backup and prune succeed afterwards",
+        note="saves are all-or-nothing at a crash (restic's stated backend contract); a crashed process's lock is removed with `restic unlock` "
+             "before judging; sampling of schedules, crash points swept completely only in sweep runs",
+        design_ref="3 / C11",
+        rule="one run = generated configuration (format 1/2, compression, pack size 16KiB-4MiB, connections, atomic replace, index-full threshold, "
+             "virtual cores, mutex/fs yields) x generated source tree x history x fault kind x seeded schedule; sweep runs repeat the target backup "
+             "for every crash point k; distinct = distinct event-log hash among runs with a real scheduling choice or fired fault",
+        real_vs_stub=L_REAL,
+        assumptions=SIM_ASSUME + ["backend Save is atomic at a crash (design.rst); torn files only after an error-returning Save on non-atomic backends"],
+    ),
     "C37": dict(
         pkg="internal/backend/sema", test="TestVerifC37", level="exploration", quick_s=25, thorough_s=600,
         text="seeded search over interleavings of concurrent Save/Load/Stat/Remove calls of all file types with Freeze/Unfreeze through the real "
